@@ -134,6 +134,7 @@ LastTime(d) == log[d][Len(log[d])].t
 (* a local edit appends one event stamped with the device clock             *)
 Edit(d, kind, n, t) ==
   /\ ~quiesced /\ Idle(d) /\ edits[d] < MaxEdits /\ kind \in EditKinds
+  /\ kind \in {"new", "upd", "del", "ren"}
   /\ LET k == edits[d] + 1
          x == CASE kind = "new" -> Term("new", d, ToString(k))
                 [] kind = "upd" -> Term("upd", d, ToString(k))
@@ -145,6 +146,21 @@ Edit(d, kind, n, t) ==
         /\ committed' = committed \cup {Rec(x, t)}
   /\ edits' = [edits EXCEPT ![d] = @ + 1]
   /\ UNCHANGED <<srv, quiesced, rounds, pc, loc, accepted, res>>
+
+(* The hard-conflict resolution on its own (folder_hard_conflict): fetch    *)
+(* the whole server log and force-merge it, discarding the local history.  *)
+(* In a sync call it is only reached when no common ancestor exists        *)
+(* (ForceMerge below); enabling it as a user-level step ("take the server's *)
+(* copy") exercises the same code on arbitrary diverged logs.              *)
+HardReset(d) ==
+  /\ "hard" \in EditKinds /\ ~quiesced /\ Idle(d) /\ OthersIdle(d)
+  /\ Evs(log[d]) # Evs(srv)
+  /\ log' = [log EXCEPT ![d] = srv]
+  (* edits that only this device held are given up on purpose *)
+  /\ committed' = {r \in committed :
+                     \/ \E i \in 1..Len(srv) : srv[i] = r
+                     \/ \E e \in Devices \ {d} : \E i \in 1..Len(log[e]) : log[e][i] = r}
+  /\ UNCHANGED <<srv, edits, quiesced, rounds, pc, loc, accepted, res>>
 
 Quiesce ==
   /\ ~quiesced /\ \A d \in Devices : Idle(d)
@@ -301,6 +317,7 @@ Next ==
   \/ \E d \in Devices, k \in EditKinds, n \in Names, t \in Times :
         t >= LastTime(d) /\ Edit(d, k, n, t)
   \/ Quiesce
+  \/ \E d \in Devices : HardReset(d)
   \/ \E d \in Devices : \/ ReqStatus(d) \/ ReqSync(d) \/ MergeReply(d) \/ ReqScan(d)
                         \/ ReqDiff(d) \/ ReqPatch(d) \/ RewindLocal(d) \/ ForceMerge(d)
 
